@@ -313,7 +313,60 @@ type c03Sets struct {
 	modified                    ssa.Value
 }
 
+// c03sets identifies the path sets of VerifyArtifacts. They are computed in f itself, or in one unexported helper
+// that receives the link's Materials and Products and returns the sets (classification extracted into a function);
+// in that case the values are the results of the helper call in f.
 func (c *Ctx) c03sets(f *ssa.Function) *c03Sets {
+	s := c.c03setsIn(f, org)
+	if s.materialPaths != nil && s.productPaths != nil {
+		return s
+	}
+	for _, via := range allCalls(f) {
+		g := via.Common().StaticCallee()
+		if !c.isStageHelper(g) {
+			continue
+		}
+		subst := map[*ssa.Parameter]string{}
+		for i, prm := range g.Params {
+			if i < len(via.Common().Args) {
+				subst[prm] = org(via.Common().Args[i])
+			}
+		}
+		inner := c.c03setsIn(g, func(v ssa.Value) string { return orgSubst(v, subst) })
+		if inner.materialPaths == nil || inner.productPaths == nil {
+			continue
+		}
+		// map the helper's values to the results of the call: result k is the value on every return
+		rets := returnsOf(g)
+		toCaller := func(v ssa.Value) ssa.Value {
+			if v == nil || len(rets) == 0 {
+				return nil
+			}
+			idx := -1
+			for _, r := range rets {
+				found := -1
+				for k, res := range r.Results {
+					if resolve(res, r) == resolve(v, nil) {
+						found = k
+					}
+				}
+				if found < 0 || (idx >= 0 && idx != found) {
+					return nil
+				}
+				idx = found
+			}
+			return resultN(via, idx)
+		}
+		return &c03Sets{
+			materialPaths: toCaller(inner.materialPaths), productPaths: toCaller(inner.productPaths),
+			created: toCaller(inner.created), deleted: toCaller(inner.deleted), modified: toCaller(inner.modified),
+			remained: inner.remained, // internal to the helper; only its existence matters to the caller's rule
+		}
+	}
+	return s
+}
+
+func (c *Ctx) c03setsIn(f *ssa.Function, org func(ssa.Value) string) *c03Sets {
 	s := &c03Sets{}
 	for _, add := range callsIn(f, "(in_toto.Set).Add") {
 		a := add.Common().Args
